@@ -516,3 +516,30 @@ func copyClosure(fn *ssa.Function, seedPath, typeName string) map[string]bool {
 	}
 	return paths
 }
+
+// shareObls keeps, of the obligations recorded since position n0, those whose key contains one of
+// the given constructs, renamed from rule `from` to rule `to`; everything else recorded since n0 is
+// dropped (it belongs to the property the rule was borrowed from). If the borrowed rule produced no
+// obligation for a construct - it gave up earlier, under another key - that is reported as
+// undecided rather than silently passed.
+func shareObls(p *ana.Prog, r *ana.Result, n0 int, from, to, fn string, constructs ...string) {
+	kept := r.Obls[:n0]
+	got := map[string]bool{}
+	for _, o := range r.Obls[n0:] {
+		for _, c := range constructs {
+			if strings.Contains(o.Key, c) && strings.HasPrefix(o.Key, from) {
+				o.Rule = to
+				o.Key = strings.Replace(o.Key, from, to, 1)
+				kept = append(kept, o)
+				got[c] = true
+				break
+			}
+		}
+	}
+	r.Obls = kept
+	for _, c := range constructs {
+		if !got[c] {
+			r.Violate(to, fn, c, "-", "UNDECIDED: the shared rule "+from+" produced no decision for "+c+" (it stopped at an earlier anchor)")
+		}
+	}
+}
